@@ -316,7 +316,9 @@ PlaceA(p) ==
 \* ---- solvers (reclaim/preempt/consolidation simulations: pipeline only, stmt kind "B") ----
 Evict(p) ==
   /\ Session /\ StmtKind \in {"none", "B"}
-  /\ pods[p].st \in {"Allocated", "Pipelined", "Binding", "Bound", "Running"} /\ ~InLog(p)
+  \* victims hold resources. (A pod that is only nominated - Pipelined earlier in the session - is not
+  \* evicted here: the code would then account it like a terminating pod that holds its request.)
+  /\ pods[p].st \in {"Allocated", "Binding", "Bound", "Running"} /\ ~InLog(p)
   /\ kinds[p].k # "resv"
   \* within one solver statement all evictions precede the placements (by_pod_solver: EvictAllPreemptees,
   \* then TryToVirtuallyAllocatePreemptorAndGetVictims; a failed simulation is rolled back first)
